@@ -3,7 +3,7 @@
 (* Trace specification of the data module (see TraceEco.tla for the        *)
 (* two-layer scheme).  Lines carry the projected data state under "ds".    *)
 (***************************************************************************)
-EXTENDS Data, Json, TLCExt
+EXTENDS Data, Json, TLCExt, Known
 
 TLog == ndJsonDeserialize("trace.ndjson")
 
@@ -60,10 +60,20 @@ T_C16_Footprint   == [][NotReset => C16_Footprint_Step]_tvars
 T_C08_ResolverManager == T_C16_ManagerOnly
 
 \* C09 / C10 observations (same harness observers as the ecocredit family)
+\* known finding (known_findings.txt, key public_resolver_genesis): a public resolver
+\* is stored with an empty manager, which the Resolver state validator rejects
+KF_public_resolver_genesis ==
+  /\ dev.type = "ExportImport"
+  /\ ob.validate_data_table = "regen.data.v1.Resolver"
+  /\ \E r \in dst.resolvers : r.manager = ""
+T_KF_public_resolver_genesis == ~KF_public_resolver_genesis
+
 T_C09_RoundTrip ==
   dev.type = "ExportImport" =>
     /\ ob.export_panic = "" /\ ob.import_panic = ""
-    /\ ob.validate_eco = "" /\ ob.validate_data = ""
+    /\ ob.validate_eco = ""
+    /\ \/ ob.validate_data = ""
+       \/ ("public_resolver_genesis" \in KnownKeys /\ KF_public_resolver_genesis)
     /\ ob.reexport_equal
     /\ ob.inv_after_import = ""
 T_C09_SameState == [][dev'.type = "ExportImport" => dst' = dst]_tvars
